@@ -180,3 +180,53 @@ fn c09_nested_constant_trees_fold_to_their_value() {
     }
     println!("CASES c09_nested_trees {n}");
 }
+
+/// trees with OPAQUE leaves among the constants: folding may simplify constant parts but must not change what the tree
+/// computes — under every valuation of the opaque leaves the folded tree evaluates to the same word as the original
+#[test]
+fn c09_folding_trees_with_opaque_leaves_preserves_their_value() {
+    use std::sync::Arc;
+    use storage_layout_extractor::vm::value::{Provenance, RSV, RSVD};
+    use crate::c07_diff::{ev_env, known};
+    fn tree(rng: &mut Rng, depth: u32, leaves: &[Arc<RSV>]) -> Arc<RSV> {
+        if depth == 0 || rng.below(5) == 0 { return leaves[rng.below(leaves.len() as u64) as usize].clone(); }
+        let mut sub = |rng: &mut Rng| tree(rng, depth - 1, leaves);
+        let d = match rng.below(14) {
+            0 | 1 => RSVD::Add { left: sub(rng), right: sub(rng) },
+            2 | 3 | 4 => RSVD::Subtract { left: sub(rng), right: sub(rng) },
+            5 => RSVD::Multiply { left: sub(rng), right: sub(rng) },
+            6 => RSVD::Divide { dividend: sub(rng), divisor: sub(rng) },
+            7 => RSVD::And { left: sub(rng), right: sub(rng) },
+            8 => RSVD::Or { left: sub(rng), right: sub(rng) },
+            9 => RSVD::Xor { left: sub(rng), right: sub(rng) },
+            10 => RSVD::Not { value: sub(rng) },
+            11 => RSVD::IsZero { number: sub(rng) },
+            12 => RSVD::LeftShift { shift: sub(rng), value: sub(rng) },
+            _ => RSVD::RightShift { shift: sub(rng), value: sub(rng) },
+        };
+        RSV::new_synthetic(0, d)
+    }
+    let opaque: Vec<Arc<RSV>> = (0..3).map(|i| RSV::new_value(i, Provenance::Synthetic)).collect();
+    let mut leaves: Vec<Arc<RSV>> = opaque.clone();
+    leaves.extend(opaque.clone());
+    for x in [0u128, 1, 2, 3, 5, 7, 8, 255, 256] { leaves.push(known(U256::new(x))); }
+    leaves.push(known(U256::MAX)); leaves.push(known(U256::ONE << 255u32));
+    let bw = boundary_words();
+    let mut rng = Rng::seeded(910);
+    let n = 3000 * crate::scale();
+    for _ in 0..n {
+        let depth = 2 + rng.below(3) as u32;
+        let t = tree(&mut rng, depth, &leaves);
+        let folded = t.constant_fold();
+        for round in 0..4 {
+            let vals: Vec<U256> = (0..3).map(|_| if round == 0 { U256::ZERO } else { bw[rng.below(bw.len() as u64) as usize] }).collect();
+            let env = |d: &RSVD| -> Option<U256> { opaque.iter().position(|o| o.data() == d).map(|i| vals[i]) };
+            let (a, b) = (ev_env(&t, &env), ev_env(&folded, &env));
+            if a.is_some() && a != b {
+                witness("C09", "fold.preserves_the_value_of_partly_constant_trees", format!("{t}  with opaque leaves = {vals:x?}"), format!("folded to {folded}, which evaluates to {b:x?}"), format!("{:#x}", a.unwrap()));
+                break;
+            }
+        }
+    }
+    println!("CASES c09_partly_constant_trees {n}");
+}
